@@ -39,12 +39,12 @@ var setIndex = func() map[attribute.Distinct]int {
 
 type point struct {
 	Start, Time time.Time
-	Val         float64 // sum / gauge
+	Val         num // sum / gauge
 	// histograms
 	Count          uint64
-	Sum            float64
+	Sum            num
 	HasMin, HasMax bool
-	Min, Max       float64
+	Min, Max       num
 	Bounds         []float64
 	Buckets        []uint64
 	// exponential histograms
@@ -99,19 +99,19 @@ func (s *snap) put(name string, se *series, attrs attribute.Set, p *point) {
 
 func numPoints[N int64 | float64](s *snap, name string, se *series, dps []metricdata.DataPoint[N]) {
 	for _, dp := range dps {
-		s.put(name, se, dp.Attributes, &point{Start: dp.StartTime, Time: dp.Time, Val: float64(dp.Value), Exemplars: len(dp.Exemplars)})
+		s.put(name, se, dp.Attributes, &point{Start: dp.StartTime, Time: dp.Time, Val: toNum(dp.Value), Exemplars: len(dp.Exemplars)})
 	}
 }
 
 func histPoints[N int64 | float64](s *snap, name string, se *series, dps []metricdata.HistogramDataPoint[N]) {
 	for _, dp := range dps {
-		p := &point{Start: dp.StartTime, Time: dp.Time, Count: dp.Count, Sum: float64(dp.Sum),
+		p := &point{Start: dp.StartTime, Time: dp.Time, Count: dp.Count, Sum: toNum(dp.Sum),
 			Bounds: append([]float64{}, dp.Bounds...), Buckets: append([]uint64{}, dp.BucketCounts...), Exemplars: len(dp.Exemplars)}
 		if v, ok := dp.Min.Value(); ok {
-			p.HasMin, p.Min = true, float64(v)
+			p.HasMin, p.Min = true, toNum(v)
 		}
 		if v, ok := dp.Max.Value(); ok {
-			p.HasMax, p.Max = true, float64(v)
+			p.HasMax, p.Max = true, toNum(v)
 		}
 		if len(dp.BucketCounts) != len(dp.Bounds)+1 {
 			// "per-bucket counts" presupposes one count per bucket of the point's own bounds.
@@ -123,15 +123,15 @@ func histPoints[N int64 | float64](s *snap, name string, se *series, dps []metri
 
 func expoPoints[N int64 | float64](s *snap, name string, se *series, dps []metricdata.ExponentialHistogramDataPoint[N]) {
 	for _, dp := range dps {
-		p := &point{Start: dp.StartTime, Time: dp.Time, Count: dp.Count, Sum: float64(dp.Sum),
+		p := &point{Start: dp.StartTime, Time: dp.Time, Count: dp.Count, Sum: toNum(dp.Sum),
 			Scale: dp.Scale, Zero: dp.ZeroCount, ZeroThr: dp.ZeroThreshold,
 			PosOff: dp.PositiveBucket.Offset, Pos: append([]uint64{}, dp.PositiveBucket.Counts...),
 			NegOff: dp.NegativeBucket.Offset, Neg: append([]uint64{}, dp.NegativeBucket.Counts...), Exemplars: len(dp.Exemplars)}
 		if v, ok := dp.Min.Value(); ok {
-			p.HasMin, p.Min = true, float64(v)
+			p.HasMin, p.Min = true, toNum(v)
 		}
 		if v, ok := dp.Max.Value(); ok {
-			p.HasMax, p.Max = true, float64(v)
+			p.HasMax, p.Max = true, toNum(v)
 		}
 		s.put(name, se, dp.Attributes, p)
 	}
@@ -180,16 +180,16 @@ type bracket struct{ Before, After time.Time }
 // that did not collect in the cycle has a nil snapshot.
 type cycle struct {
 	// model
-	ObservedD []map[int]float64   // per observable instrument: set -> value the delta reader's callback round observes
-	ObservedC []map[int]float64   // the same for the cumulative reader's round
-	Plan      [][]Obs             // observation plan in force
-	Recorded  []map[int][]float64 // per sync instrument: set -> values recorded since the previous collection point
-	RanMulti  []bool              // multi callback slot registered (hence run) in this cycle
-	StrayObs  bool                // some callback observed an instrument it is not registered for
-	Failed    bool                // some callback that ran in this cycle returned an error
-	FailMode  map[int]int         // callback id -> mode in force
-	Burst     string              // "": collectBoth; "d" / "c": part of a concurrent step on that reader
-	BurstPos  int                 // position within the burst (0-based, serial order)
+	ObservedD []map[int]num   // per observable instrument: set -> value the delta reader's callback round observes
+	ObservedC []map[int]num   // the same for the cumulative reader's round
+	Plan      [][]Obs         // observation plan in force
+	Recorded  []map[int][]num // per sync instrument: set -> values recorded since the previous collection point
+	RanMulti  []bool          // multi callback slot registered (hence run) in this cycle
+	StrayObs  bool            // some callback observed an instrument it is not registered for
+	Failed    bool            // some callback that ran in this cycle returned an error
+	FailMode  map[int]int     // callback id -> mode in force
+	Burst     string          // "": collectBoth; "d" / "c": part of a concurrent step on that reader
+	BurstPos  int             // position within the burst (0-based, serial order)
 	DeltaBr   bracket
 	CumBr     bracket
 	Delta     *snap
@@ -232,19 +232,23 @@ type world struct {
 	failLeft map[int]int // callback id -> collection steps the mode still lasts (0: no limit)
 	mu       sync.Mutex
 	inBurst  bool
-	delay    int                 // vk.Perturb kind executed inside observing callbacks during a burst
-	inv      map[int]int         // callback id -> invocations during the running burst
-	pending  []map[int][]float64 // records of the running cycle
+	delay    int             // vk.Perturb kind executed inside observing callbacks during a burst
+	inv      map[int]int     // callback id -> invocations during the running burst
+	pending  []map[int][]num // records of the running cycle
 }
 
 func (w *world) validSet(s int) bool { return s >= 0 && s < w.c.NSets && s < maxSets }
 
-// modelValue is the value the instrument actually receives for v.
-func modelValue(v float64, float bool) float64 {
+// intValue is the int64 an int64 instrument receives for a case value: the
+// (integral) float part plus the exact int64 part.
+func intValue(v vk.F64, i int64) int64 { return int64(float64(v)) + i }
+
+// modelValue is the value the instrument actually receives.
+func modelValue(v vk.F64, i int64, float bool) num {
 	if float {
-		return v
+		return floatNum(float64(v))
 	}
-	return float64(int64(v))
+	return intNum(intValue(v, i))
 }
 
 // sanitizePlan keeps the first entry per attribute set and drops entries
@@ -270,11 +274,11 @@ func multiID(j int) int { return 100 + j }
 // tri is what a callback adds to every planned value in its k-th invocation
 // of a burst: 0, 1, 3, 6 (distinct values and distinct successive differences,
 // so that both cumulative and delta outputs tell the rounds apart).
-func tri(k int) float64 { return float64((k - 1) * k / 2) }
+func tri(k int) int { return (k - 1) * k / 2 }
 
 // enter is called at the start of a callback invocation: it returns the
 // offset of this invocation's observations, the failure mode and the delay.
-func (w *world) enter(id int) (off float64, mode, delay int) {
+func (w *world) enter(id int) (off, mode, delay int) {
 	w.mu.Lock()
 	defer w.mu.Unlock()
 	mode = w.failMode[id]
@@ -294,7 +298,7 @@ func (w *world) instCallbackI(i int) metric.Int64Callback {
 		first := true
 		for _, e := range w.plan[i] {
 			if e.Via == 0 {
-				o.Observe(int64(float64(e.V))+int64(off), metric.WithAttributes(setPool[e.Set]...))
+				o.Observe(intValue(e.V, e.I)+int64(off), metric.WithAttributes(setPool[e.Set]...))
 				if first {
 					vk.Perturb(delay)
 					first = false
@@ -317,7 +321,7 @@ func (w *world) instCallbackF(i int) metric.Float64Callback {
 		first := true
 		for _, e := range w.plan[i] {
 			if e.Via == 0 {
-				o.Observe(float64(e.V)+off, metric.WithAttributes(setPool[e.Set]...))
+				o.Observe(float64(e.V)+float64(off), metric.WithAttributes(setPool[e.Set]...))
 				if first {
 					vk.Perturb(delay)
 					first = false
@@ -346,9 +350,9 @@ func (w *world) multiCallback(j int) metric.Callback {
 					continue
 				}
 				if d.float {
-					o.ObserveFloat64(w.fObs[i], float64(e.V)+off, metric.WithAttributes(setPool[e.Set]...))
+					o.ObserveFloat64(w.fObs[i], float64(e.V)+float64(off), metric.WithAttributes(setPool[e.Set]...))
 				} else {
-					o.ObserveInt64(w.iObs[i], int64(float64(e.V))+int64(off), metric.WithAttributes(setPool[e.Set]...))
+					o.ObserveInt64(w.iObs[i], intValue(e.V, e.I)+int64(off), metric.WithAttributes(setPool[e.Set]...))
 				}
 				if first {
 					vk.Perturb(delay)
@@ -366,11 +370,11 @@ func (w *world) multiCallback(j int) metric.Callback {
 // observedNow evaluates the model of what the callbacks observe in their
 // round-th invocation (round 1 outside bursts): a callback in mode 1 observes
 // nothing, one in mode 2 observes everything before it fails.
-func (w *world) observedNow(round int) (obs []map[int]float64, stray, failed bool) {
-	obs = make([]map[int]float64, len(obsDefs))
-	off := tri(round)
+func (w *world) observedNow(round int) (obs []map[int]num, stray, failed bool) {
+	obs = make([]map[int]num, len(obsDefs))
+	off := num{i: int64(tri(round)), f: float64(tri(round))} // added on both sides; the instrument's type decides
 	for i, d := range obsDefs {
-		obs[i] = map[int]float64{}
+		obs[i] = map[int]num{}
 		if w.failMode[i] != 0 {
 			failed = true
 		}
@@ -378,14 +382,14 @@ func (w *world) observedNow(round int) (obs []map[int]float64, stray, failed boo
 			switch {
 			case e.Via == 0:
 				if w.failMode[i] != 1 {
-					obs[i][e.Set] = modelValue(float64(e.V), d.float) + off
+					obs[i][e.Set] = modelValue(e.V, e.I, d.float).add(off)
 				}
 			case e.Via-1 < len(w.registered) && w.registered[e.Via-1]:
 				if w.failMode[multiID(e.Via-1)] == 1 {
 					continue
 				}
 				if contains(w.c.Multi[e.Via-1], i) {
-					obs[i][e.Set] = modelValue(float64(e.V), d.float) + off
+					obs[i][e.Set] = modelValue(e.V, e.I, d.float).add(off)
 				} else {
 					stray = true
 				}
@@ -426,10 +430,10 @@ func execute(c Case) *world {
 	w.plan = make([][]Obs, len(obsDefs))
 	w.registered = make([]bool, len(w.c.Multi))
 	w.regs = make([]metric.Registration, len(w.c.Multi))
-	newPending := func() []map[int][]float64 {
-		p := make([]map[int][]float64, len(syncDefs))
+	newPending := func() []map[int][]num {
+		p := make([]map[int][]num, len(syncDefs))
 		for i := range p {
-			p[i] = map[int][]float64{}
+			p[i] = map[int][]num{}
 		}
 		return p
 	}
@@ -552,9 +556,9 @@ func execute(c Case) *world {
 			if d.float {
 				w.fSync[op.Inst](ctx, float64(op.V), set)
 			} else {
-				w.iSync[op.Inst](ctx, int64(float64(op.V)), set)
+				w.iSync[op.Inst](ctx, intValue(op.V, op.I), set)
 			}
-			w.pending[op.Inst][op.Set] = append(w.pending[op.Inst][op.Set], modelValue(float64(op.V), d.float))
+			w.pending[op.Inst][op.Set] = append(w.pending[op.Inst][op.Set], modelValue(op.V, op.I, d.float))
 		case "plan":
 			if op.Inst < 0 || op.Inst >= len(obsDefs) {
 				continue
